@@ -41,7 +41,20 @@ def is_const(node, value):
 def stmt_text(node, limit=160):
     st = enclosing_stmt(node) or node
     try:
-        s = ast.unparse(st)
+        if isinstance(st, (ast.For, ast.AsyncFor)):
+            s = f"for {ast.unparse(st.target)} in {ast.unparse(st.iter)}:"
+        elif isinstance(st, ast.While):
+            s = f"while {ast.unparse(st.test)}:"
+        elif isinstance(st, ast.If):
+            s = f"if {ast.unparse(st.test)}:"
+        elif isinstance(st, (ast.With, ast.AsyncWith)):
+            s = "with " + ", ".join(ast.unparse(i) for i in st.items) + ":"
+        elif isinstance(st, ast.Try):
+            s = "try:"
+        elif isinstance(st, (ast.FunctionDef, ast.AsyncFunctionDef)):
+            s = f"def {st.name}(..):"
+        else:
+            s = ast.unparse(st)
     except Exception:
         s = "<unparseable>"
     s = " ".join(s.split())
